@@ -37,6 +37,12 @@ def pureCmd : Cmd → Bool
   | .tru | .fls | .echo _ | .test _ _ _ | .assign _ _ => true
   | _ => false
 
+/-- Last stages of pipelines: simple commands that leave no trace in the shell that runs them
+    (the interpreter runs the last stage in the current shell, bash in a subshell). -/
+def pipeRCmd : Cmd → Bool
+  | .tru | .fls | .echo _ | .test _ _ _ => true
+  | _ => false
+
 /-- Commands that always return status 0. -/
 def zeroCmd : Cmd → Bool
   | .tru | .echo _ | .assign _ _ | .setE _ | .setPF _ | .trapExit _ | .fn _ _ | .brk _ | .cont _ => true
@@ -137,7 +143,7 @@ mutual
         && supBody { k with tl := true :: k.tl } b && lastZero b
     | .forc _ _ b =>
       supBody { k with tl := true :: k.tl, inFor := true } b && (!k.e || k.ign || tailOk b)
-    | .case _ is => supItems k is
+    | .case _ is => supItems k false is
     | .fn _ (.mk false (.block p)) => supProg (fnCtx k) true p
     | .fn _ _ => false
   /-- left operand of a pipeline: a non-negated statement run in a subshell -/
@@ -145,7 +151,7 @@ mutual
     | .mk false c => supCmd (subCtx k) c
     | .mk true _ => false
   def supPipeR : Stmt → Bool
-    | .mk false c => pureCmd c
+    | .mk false c => pipeRCmd c
     | .mk true _ => false
   /-- a statement list; `tailRule`: the list is the body of a `{ }`, an `if` branch, a `case` item
       or a function, whose last statement carries the position's tail flags and is subject to
@@ -164,12 +170,15 @@ mutual
     | .els p => supProg k true p
     | .elif c t e =>
       supProg { k with ign := true, tl := headFalse k.tl } false c && supProg k true t && supElse k e
-  def supItems (k : SCtx) : Items → Bool
+  /-- [finding C26-case-empty-clause] `chain`: an earlier item ends in `;&` or `;;&`; an empty
+      clause may then run after a failing one. -/
+  def supItems (k : SCtx) (chain : Bool) : Items → Bool
     | .nil => true
     | .cons _ b op r =>
+      !(chain && b.isNil) &&
       (match op with
-       | .brk => supProg k true b
-       | _ => supProg { k with tl := headFalse k.tl } true b) && supItems k r
+       | .brk => supProg k true b && supItems k chain r
+       | _ => supProg { k with tl := headFalse k.tl } true b && supItems k true r)
 end
 
 /-- Does `set -e` occur nowhere?  (Then mode `e = false` applies.) -/
